@@ -1,6 +1,6 @@
 SPECIFICATION Spec
 CONSTANT MaxGiven = 2
-CONSTANT AllInvalid = TRUE
+CONSTANT Combo = "all"
 INVARIANT TypeOK
 INVARIANT Total
 INVARIANT GivenReaches
